@@ -17,6 +17,7 @@ from typing import Any, TypeVar
 import typing as tp
 
 import jax
+from flax import errors
 from flax import struct
 from flax.core import meta
 from flax.nnx import graph
@@ -55,13 +56,37 @@ class NNXMeta(struct.PyTreeNode, meta.AxisMetadata[A]):
   def replace_boxed(self, val: B) -> 'NNXMeta[B]':
     return self.replace(value=val)  # type: ignore
 
+  def _get_partition_name(self, params: dict[Any, Any]) -> str:
+    if meta.PARTITION_NAME not in params:
+      raise errors.PartitioningUnspecifiedError(self)
+    return params[meta.PARTITION_NAME]
+
   def add_axis(self, index: int, params: dict[Any, Any]) -> 'NNXMeta[A]':
-    # TODO: implement this, supporting hooks
-    return self
+    # Keeps the `sharding` annotation aligned with the value, exactly like
+    # `Partitioned.add_axis` does for `names`. Variables without a `sharding`
+    # entry carry no per-axis metadata and are left untouched.
+    # TODO: support the add_axis hooks of the variable.
+    sharding = self.metadata.get('sharding')
+    if sharding is None:
+      return self
+    axis_name = self._get_partition_name(params)
+    names = list(sharding)
+    if index < 0:
+      index += len(names) + 1
+    while len(names) < index:
+      names.append(None)
+    names.insert(index, axis_name)
+    return self.replace(metadata={**self.metadata, 'sharding': tuple(names)})
 
   def remove_axis(self, index: int, params: dict[Any, Any]) -> 'NNXMeta[A]':
-    # TODO: implement this, supporting hooks
-    return self
+    # TODO: support the remove_axis hooks of the variable.
+    sharding = self.metadata.get('sharding')
+    if sharding is None:
+      return self
+    axis_name = self._get_partition_name(params)
+    names = list(sharding)
+    assert names.pop(index) == axis_name
+    return self.replace(metadata={**self.metadata, 'sharding': tuple(names)})
 
   def get_partition_spec(self) -> jax.sharding.PartitionSpec:
     """Returns the ``Partitionspec`` for this partitioned value."""
